@@ -441,6 +441,17 @@ fn real_main() {
             }
             println!("histories {}", lines.len());
         }
+        Some("trace-namemap") => {
+            // replay TLC-generated behaviours of NameMap.tla on real Modules
+            let hists = wv::builder::read_histories(&get("histories", ""));
+            let shards: usize = get("shards", "1").parse().unwrap();
+            let lines: Vec<_> = hists.par_iter().enumerate().map(|(k, h)| wv::namemap::replay(&format!("n{}", k), h)).collect();
+            for s in 0..shards {
+                let part: Vec<_> = lines.iter().enumerate().filter(|(k, _)| k % shards == s).map(|(_, l)| l.clone()).collect();
+                cases::write_lines(&format!("{}.{}", out, s), &part);
+            }
+            println!("histories {}", lines.len());
+        }
         Some("input") => {
             // print the bytes of one input (hex) given its source string
             let src = get("source", "");
